@@ -194,12 +194,41 @@ func (d *drv) watchdog(limit time.Duration, sum func() map[string]interface{}) {
 			buf := make([]byte, 1<<16)
 			buf = buf[:runtime.Stack(buf, true)]
 			where := ""
-			for _, ln := range strings.Split(string(buf), "\n") {
-				if strings.Contains(ln, "leveldb.(*") && where == "" {
-					where = strings.TrimSpace(ln)
+			var stacks []string
+			for _, g := range strings.Split(string(buf), "\n\n") {
+				lines := strings.Split(g, "\n")
+				var fr []string
+				for i, ln := range lines {
+					if strings.Contains(ln, "goleveldb/leveldb.") && i+1 < len(lines) {
+						fn := strings.TrimPrefix(strings.TrimSpace(ln), "github.com/syndtr/goleveldb/leveldb.")
+						if j := strings.Index(fn, "("); j > 0 && strings.HasPrefix(fn, "(") {
+							if k := strings.Index(fn[1:], "("); k > 0 {
+								fn = fn[:k+1]
+							}
+						} else if j > 0 {
+							fn = fn[:j]
+						}
+						loc := strings.TrimSpace(lines[i+1])
+						if k := strings.LastIndex(loc, "/"); k >= 0 {
+							loc = loc[k+1:]
+						}
+						if k := strings.Index(loc, " "); k >= 0 {
+							loc = loc[:k]
+						}
+						fr = append(fr, fn+"@"+loc)
+						if len(fr) == 3 {
+							break
+						}
+					}
+				}
+				if len(fr) > 0 {
+					if where == "" && strings.Contains(g, "main.(*drv)") {
+						where = fr[0]
+					}
+					stacks = append(stacks, strings.Join(fr, " < "))
 				}
 			}
-			d.tr.Emit(vt.Ev{"ev": "hang", "after_s": int(limit.Seconds()), "where": where})
+			d.tr.Emit(vt.Ev{"ev": "hang", "after_s": int(limit.Seconds()), "where": where, "stacks": stacks})
 			d.tr.Close()
 			m := sum()
 			m["hung"] = true
